@@ -1006,3 +1006,115 @@ Proof.
       exists p2, r2. split; [reflexivity|]. right. exists payload, rest. repeat split; auto. discriminate.
   - exists payload, rest. auto.
 Qed.
+
+(** ** admin_only (shutdown in progress) on every path of client_entrypoint *)
+
+(** the startup packet client_entrypoint hands to Client::startup, with what it has said before:
+    directly, after a declined SSLRequest (plain), or inside the accepted TLS session *)
+Definition startup_packet_of (c : cfg) (e : auth_env) (stream : bytes) : option (list reply * bytes * bytes) :=
+  match get_startup stream with
+  | GsOk CtStartup payload rest => Some ([], payload, rest)
+  | GsOk CtTls _ r0 =>
+    if tls c
+    then (if tls_ok e
+          then match get_startup r0 with GsOk CtStartup p r => Some ([RTlsYes], p, r) | _ => None end
+          else None)
+    else match get_startup r0 with GsOk CtStartup p r => Some ([RTlsNo], p, r) | _ => None end
+  | _ => None
+  end.
+
+Section AdminOnly.
+Variable md5 : bytes -> bytes.
+Variable chk : bool.
+
+Lemma entry_via_startup : forall c sd salt stream e pre payload rest,
+  startup_packet_of c e stream = Some (pre, payload, rest) ->
+  let r := entry md5 chk c sd salt stream e in
+  let r0 := startup md5 chk c sd salt payload rest e in
+  out r = out r0 /\ replies r = pre ++ replies r0 /\ events r = events r0 /\ cache' r = cache' r0.
+Proof.
+  intros c sd salt stream e pre payload rest H. unfold startup_packet_of in H. unfold entry.
+  destruct (get_startup stream) as [[| |] p0 r0| | |]; try discriminate.
+  - destruct (tls c).
+    + destruct (tls_ok e); [|discriminate].
+      destruct (get_startup r0) as [[| |] p2 r2| | |]; try discriminate. inversion H; subst. cbn. auto.
+    + destruct (get_startup r0) as [[| |] p2 r2| | |]; try discriminate. inversion H; subst. cbn. auto.
+  - inversion H; subst. cbn. auto.
+Qed.
+
+Lemma entry_without_startup_packet : forall c sd salt stream e,
+  startup_packet_of c e stream = None ->
+  let r := entry md5 chk c sd salt stream e in
+  is_admitted (out r) = false /\ (forall s, ~ In (RMd5Request s) (replies r)) /\ events r = [].
+Proof.
+  intros c sd salt stream e H. unfold startup_packet_of in H. unfold entry.
+  assert (F : forall o rs, is_admitted o = false -> (forall s, ~ In (RMd5Request s) rs) ->
+            let r := mk o rs [] (cached e) in
+            is_admitted (out r) = false /\ (forall s, ~ In (RMd5Request s) (replies r)) /\ events r = []).
+  { intros; cbn; auto. }
+  assert (N0 : forall s, ~ In (RMd5Request s) []) by (intros s []).
+  assert (N1 : forall s, ~ In (RMd5Request s) [RTlsYes]) by (intros s [Hx|[]]; discriminate).
+  assert (N2 : forall s, ~ In (RMd5Request s) [RTlsNo]) by (intros s [Hx|[]]; discriminate).
+  destruct (get_startup stream) as [[| |] p0 r0| | |]; try discriminate; try (apply F; [reflexivity|assumption]).
+  destruct (tls c).
+  - destruct (tls_ok e); [|apply F; [reflexivity|assumption]].
+    destruct (get_startup r0) as [[| |] p2 r2| | |]; try discriminate; apply F; solve [reflexivity|assumption].
+  - destruct (get_startup r0) as [[| |] p2 r2| | |]; try discriminate; apply F; solve [reflexivity|assumption].
+Qed.
+
+(** with admin_only, every non-admin startup - whatever the rest of the packet and of the stream,
+    on the plain path, after a declined SSLRequest and inside TLS - is refused with the
+    administrator-command error before any challenge, lookup or server contact *)
+Lemma admin_only_refuses_all_paths : forall c salt stream e pre payload rest name db,
+  startup_packet_of c e stream = Some (pre, payload, rest) ->
+  ident payload = IdOk name db -> is_admin_db db = false ->
+  let r := entry md5 chk c true salt stream e in
+  out r = Rejected WShuttingDown /\ replies r = pre ++ [RError EAdminOnly] /\ events r = [] /\ cache' r = cached e.
+Proof.
+  intros c salt stream e pre payload rest name db Hp Hi Ha r. subst r.
+  destruct (entry_via_startup c true salt stream e pre payload rest Hp) as (H1 & H2 & H3 & H4).
+  rewrite (shutdown_gate md5 chk c salt payload rest e name db Hi Ha) in *. cbn in *. auto.
+Qed.
+
+(** conversely: while admin_only, whoever gets a challenge or is admitted named an admin database *)
+Lemma admin_only_serves_only_admin_db : forall c salt stream e,
+  let r := entry md5 chk c true salt stream e in
+  (is_admitted (out r) = true \/ exists s, In (RMd5Request s) (replies r)) ->
+  exists pre payload rest name db,
+    startup_packet_of c e stream = Some (pre, payload, rest) /\ ident payload = IdOk name db /\ is_admin_db db = true.
+Proof.
+  intros c salt stream e r H. subst r.
+  destruct (startup_packet_of c e stream) as [[[pre payload] rest]|] eqn:Hp.
+  2:{ exfalso. destruct (entry_without_startup_packet c true salt stream e Hp) as (N1 & N2 & _).
+      destruct H as [H|[s H]]; [rewrite N1 in H; discriminate|exact (N2 s H)]. }
+  assert (Hpre : forall s, ~ In (RMd5Request s) pre).
+  { unfold startup_packet_of in Hp.
+    destruct (get_startup stream) as [[| |] p0 r0| | |]; try discriminate.
+    - destruct (tls c).
+      + destruct (tls_ok e); [|discriminate].
+        destruct (get_startup r0) as [[| |] p2 r2| | |]; try discriminate. inversion Hp; subst. intros s [Hx|[]]; discriminate.
+      + destruct (get_startup r0) as [[| |] p2 r2| | |]; try discriminate. inversion Hp; subst. intros s [Hx|[]]; discriminate.
+    - inversion Hp; subst. intros s []. }
+  destruct (entry_via_startup c true salt stream e pre payload rest Hp) as (H1 & H2 & _).
+  destruct (ident payload) as [name db| |] eqn:Hi.
+  - destruct (is_admin_db db) eqn:Ha; [exists pre, payload, rest, name, db; auto|].
+    exfalso. rewrite (shutdown_gate md5 chk c salt payload rest e name db Hi Ha) in *. cbn in *.
+    destruct H as [H|[s H]]; [rewrite H1 in H; discriminate|].
+    rewrite H2 in H. apply in_app_or in H. destruct H as [H|[H|[]]]; [exact (Hpre s H)|discriminate].
+  - exfalso. unfold startup in *. rewrite Hi in *. cbn in *.
+    destruct H as [H|[s H]]; [rewrite H1 in H; discriminate|].
+    rewrite H2, app_nil_r in H. exact (Hpre s H).
+  - exfalso. unfold startup in *. rewrite Hi in *. cbn in *.
+    destruct H as [H|[s H]]; [rewrite H1 in H; discriminate|].
+    rewrite H2, app_nil_r in H. exact (Hpre s H).
+Qed.
+
+(** ... and the admin database is served exactly as without admin_only *)
+Lemma admin_only_admin_db_unaffected : forall c salt payload rest e name db,
+  ident payload = IdOk name db -> is_admin_db db = true ->
+  startup md5 chk c true salt payload rest e = startup md5 chk c false salt payload rest e.
+Proof.
+  intros c salt payload rest e name db Hi Ha. unfold startup. rewrite Hi, Ha. reflexivity.
+Qed.
+
+End AdminOnly.
